@@ -126,6 +126,16 @@ Proof.
     cbn [app]. f_equal. exact IH.
 Qed.
 
+Lemma chunks_all_full : forall n k l, 0 < n -> length l = n * k ->
+  Forall (fun c => length c = n) (chunks n l) /\ length (chunks n l) = k.
+Proof.
+  intros n k. induction k; intros l Hn Hl.
+  - rewrite Nat.mul_0_r in Hl. apply length_zero_nil in Hl. subst. split; [constructor|reflexivity].
+  - rewrite chunks_cons; [|assumption|apply nonnil_length; nia].
+    destruct (IHk (skipn n l) Hn) as [I1 I2]; [rewrite skipn_length; nia|].
+    split; [constructor; [rewrite firstn_length; nia|exact I1]|cbn [length]; now rewrite I2].
+Qed.
+
 (* ---------------------------------------------------------------------------------------- *)
 (* xor_bytes *)
 
